@@ -1446,7 +1446,7 @@ func BatchExitRule(w *World, batch *Backend, r *Result, rule string) {
 		seenEndlocal := false
 		verdict, pos := "", w.Pos(mf.Fn.Pos())
 		for _, em := range mf.Emissions {
-			if em.Sink != "addEndLine" {
+			if em.Sink != batch.X.EndSink {
 				continue
 			}
 			txt := strings.ToLower(em.T.String())
@@ -1477,7 +1477,7 @@ func BatchExitRule(w *World, batch *Backend, r *Result, rule string) {
 	if mf := batch.X.Methods["Panic"]; mf != nil {
 		frameOnly := false
 		for _, em := range batch.X.Methods["ProgramEnd"].Emissions {
-			if em.Sink == "addEndLine" && strings.Contains(strings.ToLower(em.T.String()), "exit /b") {
+			if em.Sink == batch.X.EndSink && strings.Contains(strings.ToLower(em.T.String()), "exit /b") {
 				frameOnly = true
 			}
 		}
